@@ -39,7 +39,10 @@ def gen_cases(tier, seed):
                 spec.append({"p": p, "k": "f", "size": 3 << 20, "seed": r.randrange(1, 1 << 30), "segs": [[4096, 9000], [2 << 20, 100]], "sync": True})
             else:
                 spec.append({"p": p, "k": "f", "size": {"empty": 0, "tiny": 1, "multi": r.choice([70000, 200001])}[kind], "seed": r.randrange(1, 1 << 30), "segs": None})
-        yield {"spec": spec, "driver": driver, "mode": mode, "answer": ans, "okfiles": sorted(r.sample(range(nf), r.randint(1, nf))) if ans == "mixed" else None,
+        # now and then the destination path of one file is already occupied by something that is not a regular file (a character
+        # device like /dev/null, a FIFO would block): the mode's contract is the same
+        devdest = r.random() < 0.12
+        yield {"devdest": devdest, "spec": spec, "driver": driver, "mode": mode, "answer": ans, "okfiles": sorted(r.sample(range(nf), r.randint(1, nf))) if ans == "mixed" else None,
                "args": ["--driver", driver, "-w", str(r.choice([0, 1, 2, 4])), "--block-size", "32KB", "--reflink", r.choice([mode, mode, mode.upper(), mode.capitalize()]), "-r", "src", "dst"],
                "fs": "tmpfs" if r.random() < 0.2 else "ext4", "sched": r.choice(["free", "pct"]), "sseed": r.randrange(1 << 30),
                # verbose logging whose output cannot be written (full disk behind a redirection, reader gone): the mode's contract is unchanged
@@ -51,6 +54,9 @@ def run_case(case):
     with core.Sandbox(case["fs"], "c15") as sb:
         root = sb.root
         tree.materialize(root, case["spec"])
+        if case.get("devdest"):
+            f0 = [e for e in case["spec"] if e["k"] == "f"][0]["p"]
+            tree.materialize(root, [{"p": "dst", "k": "d"}, {"p": "dst/src", "k": "d"}, {"p": "dst/src/d", "k": "d"}, {"p": "dst/" + f0, "k": "chr", "rdev": [1, 3], "mode": 0o666}])
         pre = tree.snapshot(root)
         ans = case["answer"]
         rules = []
@@ -83,7 +89,7 @@ def run_case(case):
         files = [m for m in mapping if m["rec"]["k"] == "f"]
         mode = case["mode"]
         tag = "driver=%s mode=%s answer=%s exit=%d fs=%s" % (case["driver"], mode, ans, run.status, case["fs"])
-        sig0 = "%s:%s:%s%s" % (case["driver"], mode, ans, ":unwritable-log" if case.get("logfail") else "")
+        sig0 = "%s:%s:%s%s%s" % (case["driver"], mode, ans, ":unwritable-log" if case.get("logfail") else "", ":device-in-place" if case.get("devdest") else "")
         # per destination path: ordered list of (kind, seq, ret)
         seqs = {}
         nclone = 0
@@ -125,9 +131,9 @@ def run_case(case):
                 okc = [e for e in ev if e[0] == "clone" and e[2] == 0]
                 if okc and [e for e in ev if e[0] == "data" and e[1] > okc[0][1]]:
                     res["viol"].append({"sig": sig0 + ":data-after-successful-clone", "what": "--reflink=auto: %s was cloned and then copied again; %s" % (m["dst"], tag)})
-            if unavailable and not run.exit0:
+            if unavailable and not run.exit0 and not case.get("devdest"):      # (a device in the way makes the run fail for other reasons)
                 res["viol"].append({"sig": sig0 + ":auto-did-not-fall-back", "what": "--reflink=auto with cloning unavailable (%s) must fall back and exit 0: %s; %s" % (ans, run.stderr[-200:], tag)})
-        if run.exit0:
+        if run.exit0 and not case.get("devdest"):
             for frag, msg in model.check_mirror(pre, post, files):
                 res["viol"].append({"sig": sig0 + ":" + frag, "what": "exit 0 but " + msg + "; " + tag})
         res["counters"]["exit0" if run.exit0 else "nonzero"] = 1
